@@ -16,3 +16,22 @@ Print Assumptions C17_old_image_intact.
 Theorem C17_sync_phase_order : sync_order_ok = true /\ sync_order_ok2 = true.
 Proof. exact SrcFacts_proofs.sync_order_ok_true. Qed.
 Print Assumptions C17_sync_phase_order.
+
+(* ------------------------------------------------------------------------------------------ *)
+(* ... "its rollback records": the segmented rollback log (RbProto.v: a directory of append-only *)
+(* segment files under power loss; monitor rb_discipline evaluated on the real I/O trace of every  *)
+(* sync by the rbtrace engine, instance decoded from the pre-sync segment files).                *)
+From Nomt Require RbProto RbProto_proofs.
+
+(* For every trace accepted by the monitor: at every cut up to the manifest's fsync and in EVERY
+   power-loss image (any subset of the unsynced block writes, creations and unlinks surviving),
+   every record of the old live range is completely present at its place, whichever manifest the
+   image holds. *)
+Theorem C17_rollback_records_intact : forall I d0 tr,
+  RbProto.rb_inst_okb I = true -> RbProto.rb_start_okb I d0 = true -> RbProto.rb_discipline I d0 tr = true ->
+  forall n img,
+  (forall is_, RbProto.index_of RbProto.is_meta_sync tr = Some is_ -> n <= is_) ->
+  RbProto.rb_pl_image (RbProto.rb_run d0 (firstn n tr)) img ->
+  RbProto.rb_recover (RbProto.o_recs I) (RbProto.o_start I) (RbProto.o_end I) img = true.
+Proof. exact RbProto_proofs.rb_old_range_intact. Qed.
+Print Assumptions C17_rollback_records_intact.
